@@ -14,12 +14,13 @@ import (
 
 // member is the model's view of one member of an arrived record.
 type member struct {
-	rec, idx int
-	exp      refrpc.Member // structural classification (no dynamic state)
-	k        int           // nonce (-1 = none)
-	runs     bool          // a handler must run for it (valid request with a resolvable method), barring duplicates / cancellation
-	reserves bool          // it reserves its id when assigned (valid call with a non-empty method)
-	builtin  bool
+	rec, idx      int
+	exp           refrpc.Member // structural classification (no dynamic state)
+	k             int           // nonce (-1 = none)
+	runs          bool          // a handler must run for it (valid request with a resolvable method), barring duplicates / cancellation
+	reserves      bool
+	maybeReserves bool // it reserves its id when assigned (valid call with a non-empty method)
+	builtin       bool
 
 	enterSeq, exitSeq int // -1 = not yet
 	inv               int
@@ -117,6 +118,8 @@ func ServerCheck(sc sim.Scenario, h *sim.History, opt ServerOptions) []Problem {
 				isReq := m.Class == refrpc.Call || m.Class == refrpc.Notification
 				mm.runs = isReq && m.DontCare == "" && m.Handler
 				mm.reserves = m.Class == refrpc.Call && m.DontCare == "" && m.Reply != refrpc.AnyReply
+				// a call-shaped member the reference is unsure about may hold its id as well
+				mm.maybeReserves = !mm.reserves && m.HasID && m.Method != "" && (m.DontCare != "" || m.Reply == refrpc.AnyReply)
 				if mm.runs && mm.k >= 0 {
 					if byK[mm.k] != nil {
 						mm.k = -2 // generator bug: duplicate nonce; ignore attribution
@@ -705,6 +708,12 @@ func ServerCheck(sc sim.Scenario, h *sim.History, opt ServerOptions) []Problem {
 						}
 						for _, o := range recs[:r.idx] {
 							for _, om := range o.members {
+								if om.maybeReserves && om.exp.IDText == m.exp.IDText && !(hasReply(o) && o.wireSeq[0] < r.sentSeq) {
+									if m.dup == "" {
+										m.dup = "maybe"
+									}
+									continue
+								}
 								if !om.reserves || om.exp.IDText != m.exp.IDText || om.dup == "yes" {
 									continue
 								}
